@@ -9,6 +9,7 @@ equals the model state *after* the label (see DESIGN §4 A), so each label carri
 from __future__ import annotations
 
 import asyncio
+import contextvars
 import heapq
 import logging
 import random
@@ -19,6 +20,11 @@ from typing import Any
 from ..sim.simloop import SimDeadlock, SimLoop, SimStall, run_sim
 
 TICK = 2.0 ** -10
+
+# The observer of the watcher in whose context the current code runs. Every task a watcher creates
+# (its Scheduler's spawner/cleaner, the workers, the depletion task) inherits the watcher task's context,
+# so several watchers can run in ONE loop (as in a real operator) and are observed separately.
+CUR: contextvars.ContextVar = contextvars.ContextVar("c01_observer", default=None)
 
 
 class TieLoop(SimLoop):
@@ -111,10 +117,17 @@ class Inst:
 
 
 class Observer:
-    def __init__(self, scn: dict, queueing: Any) -> None:
+    def __init__(self, scn: dict, queueing: Any, name: str = "main") -> None:
         self.scn = scn
         self.q = queueing
+        self.name = name
         self.loop: TieLoop | None = None
+        self.outcome: str | None = None
+        self.close_p: int | None = None
+        self.in_hand: dict | None = None   # the event the stream has handed over and the watcher has not enqueued yet
+        self.sched = 0.0                   # when the API "sent" the previous item (availability time)
+        self.last_yield: float | None = None
+        self.items_by_seq: dict[int, dict] = {}
         self.pos = 0                       # global log position (orders things inside one instant)
         self.labels: list[list] = []       # [label, snapshot|None, time_ticks]
         self.anomalies: list[str] = []
@@ -161,9 +174,13 @@ class Observer:
                 st.append([self.key_index(key), stream.backlog.qsize()])
         st.sort()
         sch = self.scheduler
-        run = len(sch._running_tasks)
+        try:
+            run = len(sch._running_tasks)
+            pend = sch._pending_coros.qsize()
+        except (AttributeError, TypeError):
+            return None
         self.max_running = max(self.max_running, run)
-        return [sch._pending_coros.qsize(), run, st]
+        return [pend, run, st]
 
     def label(self, lab: list, snap: bool = True) -> None:
         self.pos += 1
@@ -173,15 +190,32 @@ class Observer:
         self.labels.append([lab, sn, self.ticks()])
 
     # ---- hooks ----------------------------------------------------------------------------------
-    def on_deliver(self, ev: dict, obj: int) -> None:
-        key = (self.resource, self.q.get_uid(ev))
-        k = self.key_index(key)
+    def on_deliver(self, ev: dict, obj: int, avail: float) -> None:
+        """The stream hands `ev` to the watcher. WHICH queue it goes to is observed (`on_put`), not re-computed:
+        the key is whatever the watcher uses. `t` is when the API sent the event (= now, unless the watcher came
+        back late for it), `t_pull` when the watcher took it."""
+        self.flush_hand("the watcher asked for the next event")
         self.pos += 1
-        self.delivered.append({"seq": ev["seq"], "obj": obj, "t": self.ticks(), "p": self.pos, "k": k})
+        d = {"seq": ev["seq"], "obj": obj, "t": int(round(avail * 1024)), "t_pull": self.ticks(), "p": self.pos, "k": None}
+        self.delivered.append(d)
         self.seq_obj[ev["seq"]] = obj
-        self.obj_k[obj] = k
-        if self.streams is None or key not in self.streams:
-            self.label(["miss", k, ev["seq"]])
+        fb_key = (self.resource, self.q.get_uid(ev))
+        self.in_hand = {"d": d, "idx": len(self.labels), "snap": self.snap() if self.streams is not None else None,
+                        "t": self.ticks(), "iter": self.loop.iterations,  # type: ignore[union-attr]
+                        "fb_key": fb_key, "fb_missing": self.streams is None or fb_key not in self.streams}
+
+    def flush_hand(self, why: str) -> None:
+        """A delivered event that was never put into any backlog (the watcher was cancelled, or is still blocked,
+        between taking it and enqueueing it)."""
+        h, self.in_hand = self.in_hand, None
+        if h is None:
+            return
+        d = h["d"]
+        if h["fb_missing"]:
+            # no stream existed for it (by the documented key): it sat in the watcher's hand after the KeyError
+            self.labels.insert(h["idx"], [["miss", self.key_index(h["fb_key"]), d["seq"]], h["snap"], h["t"]])
+        else:
+            self.anomalies.append(f"event {d['seq']} was taken from the stream but never put into its backlog ({why})")
 
     def on_put(self, queue: Any, item: Any) -> None:
         if item is self.q.EOS.token:
@@ -194,7 +228,22 @@ class Observer:
         if queue.vkey is None:
             self.fresh_put = (queue, seq)
         else:
-            self.label(["arrive", self.key_index(queue.vkey), seq])
+            k = self.key_index(queue.vkey)
+            self.settle_hand(seq, k, missed=False)
+            self.label(["arrive", k, seq])
+
+    def settle_hand(self, seq: Any, k: int, missed: bool) -> None:
+        h = self.in_hand
+        if h is None or h["d"]["seq"] != seq:
+            self.anomalies.append(f"event {seq} was enqueued, but it is not the event the stream has just handed over")
+            return
+        self.in_hand = None
+        h["d"]["k"] = k
+        self.obj_k[h["d"]["obj"]] = k
+        if missed:
+            # the KeyError branch: the event was in the watcher's hand since it was delivered (label position
+            # and snapshot of THAT moment: a suspension in between must be visible to the model)
+            self.labels.insert(h["idx"], [["miss", k, seq], h["snap"], h["t"]])
 
     def on_get(self, queue: Any, item: Any) -> None:
         inst = self.by_task.get(asyncio.current_task())
@@ -249,6 +298,17 @@ class Observer:
         inst.started = True
         inst.task = asyncio.current_task()
         self.by_task[inst.task] = inst
+        # the task's own lifetime (first step .. done), independent of how the scheduler keeps its books: the
+        # same instants as the scheduler's spawn / done-callback (used when those are not observable)
+        if inst.t_spawn is None:
+            self.pos += 1
+            inst.t_spawn, inst.p_spawn = self.ticks(), self.pos
+
+        def _done(_t: Any, inst: Inst = inst) -> None:
+            if inst.t_left is None:
+                self.pos += 1
+                inst.t_left, inst.p_left = self.ticks(), self.pos
+        inst.task.add_done_callback(_done)
         try:
             await self.real_worker(**kw)
         except BaseException as e:
@@ -273,6 +333,7 @@ class Observer:
                                   f"into the new stream (stream creation + put + spawn are not one segment)")
             self.label(["insert-without-event", inst.k, inst.g])
         else:
+            self.settle_hand(seq, inst.k, missed=True)
             self.label(["insert", inst.k, inst.g, seq])
 
     def on_running_add(self, task: Any) -> None:
@@ -301,6 +362,7 @@ class Observer:
 
     def on_close(self) -> None:
         self.label(["close"])
+        self.close_p = self.pos
 
     def mark_closing(self) -> None:
         if self.closing_t is None:
@@ -314,11 +376,17 @@ class Observer:
             return inst
         return None
 
-    async def wait_item(self, item: dict) -> None:
+    async def wait_item(self, item: dict) -> float:
+        """Waits until the API "sends" the item; returns that (availability) time. A `delay` is counted from the
+        moment the PREVIOUS item was sent, not from the moment the watcher came back for more: a watcher that
+        returns late finds the item already waiting (as in a socket buffer) — on the unchanged code the watcher
+        always returns within the same instant, so the two readings coincide there."""
         w = item.get("wait", ["delay", 0])
         if w[0] == "delay":
-            if w[1] > 0:
-                await asyncio.sleep(w[1] * TICK)
+            avail = self.sched + max(0, w[1]) * TICK
+            if avail > self.now():
+                await asyncio.sleep(avail - self.now())
+            # else: the item has been waiting for the watcher since `avail`
         elif w[0] == "deadline":
             inst = self.live_inst_of_obj(w[1])
             while inst is not None and not inst.waiting:   # pending / spawned / busy: wait until it idles
@@ -333,18 +401,25 @@ class Observer:
                 delay = abs(w[2]) * TICK
             if delay > 0:
                 await asyncio.sleep(delay)
+            avail = self.now()
         else:
             raise ValueError(f"unknown wait spec {w!r}")
+        avail = min(avail, self.now())
+        self.sched = avail
         for _ in range(item.get("hops", 0)):
             await asyncio.sleep(0)
+        return avail
 
     def make_event(self, item: dict, seq: int) -> dict:
         o = self.scn["objects"][item["obj"]]
-        meta: dict[str, Any] = {"resourceVersion": str(seq)}
+        # resourceVersions are opaque to clients: the delivered order is the order, whatever they look like
+        meta: dict[str, Any] = {"resourceVersion": str(item["rv"]) if item.get("rv") is not None else str(seq)}
         body: dict[str, Any] = {"metadata": meta}
         if "uid" in o:
             meta["uid"] = o["uid"]
             meta["name"] = o.get("name", o["uid"])
+            if o.get("namespace") is not None:
+                meta["namespace"] = o["namespace"]
         else:
             n = o["nouid"]
             for f in ("kind", "apiVersion"):
@@ -357,9 +432,15 @@ class Observer:
 
     async def stream(self, **_: Any):
         seq = 0
+        self.sched = self.now()       # the watch begins now
         for idx, item in enumerate(self.scn["stream"]):
-            await self.wait_item(item)
+            if self.last_yield is not None and self.now() > self.last_yield and self.closing_t is None:
+                self.anomalies.append(f"the watcher came back to the stream {int(round((self.now() - self.last_yield) * 1024))} "
+                                      f"ticks after it was given an event: it waited for something (in the model every "
+                                      f"watcher segment is enabled at once, whatever the workers do)")
+            avail = await self.wait_item(item)
             if "bookmark" in item:
+                self.last_yield = self.now()
                 if item["bookmark"] == "LISTED":
                     yield self.q.watching.Bookmark.LISTED
                 else:
@@ -370,9 +451,15 @@ class Observer:
             self.items_by_seq[seq] = item
             c = self.scn.get("cancel")
             if c and c.get("mode") == "after_event" and c.get("index") == idx:
-                self.loop.call_later(c.get("delta", 0) * TICK, self.do_cancel)  # type: ignore[union-attr]
-            self.on_deliver(ev, item["obj"])
+                if c.get("soon") is not None:
+                    # lands at the (soon+1)-th suspension of the watcher after it got this event
+                    self.cancel_soon(int(c["soon"]))
+                else:
+                    self.loop.call_later(c.get("delta", 0) * TICK, self.do_cancel)  # type: ignore[union-attr]
+            self.on_deliver(ev, item["obj"], avail)
+            self.last_yield = self.now()
             yield ev
+        self.flush_hand("the watcher asked for the next event")
         tail = self.scn.get("tail", 0)
         if tail > 0:
             await asyncio.sleep(tail * TICK)
@@ -381,6 +468,12 @@ class Observer:
                            "finished": [c["seq"] for c in self.calls if c["end"] is not None]}
         self.mark_closing()
         self.label(["cancel"])
+
+    def cancel_soon(self, n: int) -> None:
+        if n <= 0:
+            self.loop.call_soon(self.do_cancel)  # type: ignore[union-attr]
+        else:
+            self.loop.call_soon(self.cancel_soon, n - 1)  # type: ignore[union-attr]
 
     def do_cancel(self) -> None:
         wt = self.watcher_task
@@ -480,43 +573,72 @@ class Observer:
 
 
 def simulate(scn: dict, policy: str = "fifo", max_steps: int = 5000) -> dict:
-    """Run one scripted scenario through the real watcher. Returns the observation log."""
+    """Run one scripted scenario through the real watcher. Returns the observation log.
+    `scn["peer"]` (optional: objects/stream/cancel/cancel2/tail/indexed/start of its own) is a SECOND watcher of
+    another resource in the same loop, with the same settings — as in a real operator; its log is `log["peer"]`."""
     from kopf._cogs.aiokits import aiotasks, aiotoggles
     from kopf._cogs.configs import configuration
     from kopf._cogs.structs import references
     from kopf._core.reactor import queueing
 
-    obs = Observer(scn, queueing)
-    obs.items_by_seq = {}
+    obs = Observer(scn, queueing, "main")
     obs.resource = references.Resource("kopf.dev", "v1", "kopfexamples", namespaced=True)
-    obs.real_worker = queueing.worker
+    observers = [obs]
+    if scn.get("peer"):
+        peer = Observer(dict(scn["peer"], settings=scn["settings"]), queueing, "peer")
+        peer.resource = references.Resource("kopf.dev", "v1", "kopfpeers", namespaced=True)
+        observers.append(peer)
+    real_worker = queueing.worker
     real_depletion = queueing._wait_for_depletion
+    for o in observers:
+        o.real_worker = real_worker
+
+    def owner_of_task(task: Any) -> Observer | None:
+        for o in observers:
+            if task in o.by_task:
+                return o
+        return None
+
+    def owner_of_coro(coro: Any) -> Observer | None:
+        for o in observers:
+            if id(coro) in o.by_coro:
+                return o
+        return None
 
     class ObservedQueue(asyncio.Queue):
         vkey: Any = None
 
+        def __init__(self, *a: Any, **kw: Any) -> None:
+            super().__init__(*a, **kw)
+            self.vobs = CUR.get()
+
         def put_nowait(self, item: Any) -> None:
             super().put_nowait(item)
-            obs.on_put(self, item)
+            if self.vobs is not None:
+                self.vobs.on_put(self, item)
 
         def get_nowait(self) -> Any:
             item = super().get_nowait()
-            obs.on_get(self, item)
+            o = owner_of_task(asyncio.current_task())
+            if o is not None:
+                o.on_get(self, item)
             return item
 
     class ObservedCondition(asyncio.Condition):
         """the watcher's `signaller`: a worker enters it right after `del streams[key]`"""
 
         async def __aenter__(self) -> None:
-            inst = obs.by_task.get(asyncio.current_task())
-            if inst is not None:
-                obs.log_exit(inst, sys.exc_info()[1])
+            o = owner_of_task(asyncio.current_task())
+            if o is not None:
+                o.log_exit(o.by_task[asyncio.current_task()], sys.exc_info()[1])
             return await super().__aenter__()
 
     class PendingQueue(asyncio.Queue):
         def put_nowait(self, item: Any) -> None:
             super().put_nowait(item)
-            obs.on_pending_put(item)
+            o = owner_of_coro(item.coro) or CUR.get()
+            if o is not None:
+                o.on_pending_put(item)
 
     class ObservedSet(set):
         """`Scheduler._running_tasks`, iterated in insertion order (deterministic replays)."""
@@ -528,14 +650,18 @@ def simulate(scn: dict, policy: str = "fifo", max_steps: int = 5000) -> dict:
         def add(self, task: Any) -> None:
             super().add(task)
             self._order[task] = None
-            obs.on_running_add(task)
+            o = owner_of_coro(task.get_coro()) or CUR.get()
+            if o is not None:
+                o.on_running_add(task)
 
         def discard(self, task: Any) -> None:
             present = task in self
             super().discard(task)
             self._order.pop(task, None)
             if present:
-                obs.on_running_discard(task)
+                o = owner_of_task(task)
+                if o is not None:
+                    o.on_running_discard(task)
 
         def __iter__(self):
             return iter(list(self._order))
@@ -543,17 +669,49 @@ def simulate(scn: dict, policy: str = "fifo", max_steps: int = 5000) -> dict:
     class ObservedScheduler(aiotasks.Scheduler):
         def __init__(self, **kw: Any) -> None:
             super().__init__(**kw)
-            self._running_tasks = ObservedSet()
-            self._pending_coros = PendingQueue()
-            obs.scheduler = self
+            # The observed containers go where the code under test keeps its own: per instance normally. State
+            # that the code keeps on the CLASS (shared by all schedulers of the process) stays shared here.
+            o = CUR.get()
+            for attr, factory, plain in (("_running_tasks", ObservedSet, set), ("_pending_coros", PendingQueue, asyncio.Queue)):
+                if type(getattr(self, attr, None)) is not plain:
+                    # not the container this harness knows how to observe (renamed / another type): leave the
+                    # code alone — the trace will not match the model (a tie failure), the oracle still judges
+                    if o is not None:
+                        o.anomalies.append(f"Scheduler.{attr} is not a plain {plain.__name__}: the scheduler is not observable")
+                    continue
+                if attr in self.__dict__:
+                    setattr(self, attr, factory())
+                elif attr not in ObservedScheduler.__dict__:
+                    setattr(ObservedScheduler, attr, factory())
+            if o is not None:
+                o.scheduler = self
 
         async def close(self) -> None:
-            obs.on_close()
+            o = CUR.get()
+            if o is not None:
+                o.on_close()
             await super().close()
 
     async def depletion(**kw: Any) -> None:
-        obs.mark_closing()
+        o = CUR.get()
+        if o is not None:
+            o.mark_closing()
         await real_depletion(**kw)
+
+    def worker_hook(**kw: Any) -> Any:
+        o = CUR.get()
+        if o is None:
+            return real_worker(**kw)
+        return o.on_worker_call(**kw)
+
+    def watch_hook(**kw: Any) -> Any:
+        return CUR.get().stream(**kw)
+
+    async def wait_for_hook(fut: Any, timeout: Any) -> Any:
+        o = owner_of_task(asyncio.current_task())
+        if o is None:
+            return await asyncio.wait_for(fut, timeout)
+        return await o.wait_for(fut, timeout)
 
     st = scn["settings"]
     settings = configuration.OperatorSettings()
@@ -569,42 +727,55 @@ def simulate(scn: dict, policy: str = "fifo", max_steps: int = 5000) -> dict:
     settings.persistence.consistency_timeout = ct * TICK if ct is not None else 0
 
     loop = TieLoop(policy=policy, seed=scn.get("tie_seed", 0), max_steps_per_instant=max_steps)
-    obs.loop = loop
+    for o in observers:
+        o.loop = loop
     result: dict[str, Any] = {"outcome": None, "error": None}
     verdict: tuple[Any, Any] = (None, None)
 
     saved = {n: getattr(queueing, n) for n in ("watching", "asyncio", "aiotasks", "worker", "_wait_for_depletion")}
     log_levels = [(lg, lg.level) for lg in (logging.getLogger("kopf"), logging.getLogger("asyncio"))]
-    queueing.watching = _Proxy(saved["watching"], infinite_watch=obs.stream)
-    queueing.asyncio = _Proxy(asyncio, wait_for=obs.wait_for, Queue=ObservedQueue, Condition=ObservedCondition)
+    queueing.watching = _Proxy(saved["watching"], infinite_watch=watch_hook)
+    queueing.asyncio = _Proxy(asyncio, wait_for=wait_for_hook, Queue=ObservedQueue, Condition=ObservedCondition)
     queueing.aiotasks = _Proxy(aiotasks, Scheduler=ObservedScheduler)
-    queueing.worker = obs.on_worker_call
+    queueing.worker = worker_hook
     queueing._wait_for_depletion = depletion
     for lg, _ in log_levels:
         lg.setLevel(logging.CRITICAL + 1)
 
-    async def main() -> None:
+    async def run_watcher(o: Observer) -> None:
+        sc = o.scn
+        if sc.get("start"):
+            await asyncio.sleep(sc["start"] * TICK)
         kw: dict[str, Any] = {}
-        if scn.get("indexed"):
+        if sc.get("indexed"):
             ts = aiotoggles.ToggleSet(all)
             kw["resource_indexed"] = await ts.make_toggle(name="this-resource")
             await ts.make_toggle(name="another-resource")   # keeps the operator "not yet indexed"
             kw["operator_indexed"] = ts
-        wt = asyncio.ensure_future(queueing.watcher(namespace=None, settings=settings, resource=obs.resource,
-                                                    processor=obs.processor, **kw))
-        obs.watcher_task = wt
-        c = scn.get("cancel")
+        ctx = contextvars.copy_context()
+        ctx.run(CUR.set, o)
+        wt = loop.create_task(queueing.watcher(namespace=None, settings=settings, resource=o.resource,
+                                               processor=o.processor, **kw), context=ctx)
+        o.watcher_task = wt
+        c = sc.get("cancel")
         if c and c.get("mode") == "abs":
-            loop.call_at(c["at"] * TICK, obs.do_cancel)
+            loop.call_at(max(loop.time(), c["at"] * TICK), o.do_cancel)
         try:
             await wt
-            result["outcome"] = "ended"
+            o.outcome = "ended"
         except asyncio.CancelledError:
-            result["outcome"] = "cancelled"
+            o.outcome = "cancelled"
         except RuntimeError as e:
-            result["outcome"] = "escalated" if "unrecoverable" in str(e) else f"runtime-error: {e}"
+            o.outcome = "escalated" if "unrecoverable" in str(e) else f"runtime-error: {e}"
         except BaseException as e:  # noqa: BLE001
-            result["outcome"] = f"error: {type(e).__name__}: {e}"
+            o.outcome = f"error: {type(e).__name__}: {e}"
+        o.flush_hand("the watcher is over")
+
+    async def main() -> None:
+        runners = [asyncio.ensure_future(run_watcher(o)) for o in observers]
+        for r in runners:
+            await r
+        result["outcome"] = "done"
 
     try:
         try:
@@ -613,8 +784,12 @@ def simulate(scn: dict, policy: str = "fifo", max_steps: int = 5000) -> dict:
             result["outcome"], result["error"] = "stall", str(e)
         except SimDeadlock as e:
             result["outcome"], result["error"] = "deadlock", str(e)
-        if result["outcome"] not in ("stall", "deadlock"):
-            obs.label(["end"])
+        for o in observers:
+            if result["outcome"] in ("stall", "deadlock"):
+                if o.outcome is None:
+                    o.outcome = result["outcome"]
+            else:
+                o.label(["end"])
         verdict = (result["outcome"], result["error"])
     finally:
         for n, v in saved.items():
@@ -645,18 +820,24 @@ def simulate(scn: dict, policy: str = "fifo", max_steps: int = 5000) -> dict:
             lg.setLevel(lv)
     result["outcome"], result["error"] = verdict     # the clean-up above must not overwrite the verdict
 
-    return {
-        "outcome": result["outcome"], "error": result["error"],
-        "labels": obs.labels, "anomalies": obs.anomalies,
-        "delivered": obs.delivered, "calls": obs.calls,
-        "insts": [{"k": i.k, "g": i.g, "key": repr(i.key[1]), "obj": i.obj, "t_created": i.t_created,
-                   "t_spawn": i.t_spawn, "t_exit": i.t_exit, "t_left": i.t_left, "exit": i.exit,
-                   "p_spawn": i.p_spawn, "p_left": i.p_left} for i in obs.insts],
-        "stream_end": obs.stream_end,
-        "closing_t": None if obs.closing_t is None else int(round(obs.closing_t * 1024)),
-        "cancel_t": None if obs.cancel_t is None else int(round(obs.cancel_t * 1024)),
-        "fail_t": None if obs.fail_t is None else int(round(obs.fail_t * 1024)),
-        "end_t": int(round(loop.vtime * 1024)),
-        "max_running": obs.max_running, "max_busy": obs.max_busy,
-        "tie_groups": loop.tie_groups, "iterations": loop.iterations,
-    }
+    def log_of(o: Observer) -> dict:
+        return {
+            "watcher": o.name,
+            "outcome": o.outcome, "error": result["error"] if o.outcome in ("stall", "deadlock") else None,
+            "labels": o.labels, "anomalies": o.anomalies,
+            "delivered": o.delivered, "calls": o.calls,
+            "insts": [{"k": i.k, "g": i.g, "key": repr(i.key[-1]), "obj": i.obj, "t_created": i.t_created,
+                       "t_spawn": i.t_spawn, "t_exit": i.t_exit, "t_left": i.t_left, "exit": i.exit,
+                       "p_spawn": i.p_spawn, "p_left": i.p_left} for i in o.insts],
+            "stream_end": o.stream_end, "close_p": o.close_p,
+            "closing_t": None if o.closing_t is None else int(round(o.closing_t * 1024)),
+            "cancel_t": None if o.cancel_t is None else int(round(o.cancel_t * 1024)),
+            "fail_t": None if o.fail_t is None else int(round(o.fail_t * 1024)),
+            "end_t": int(round(loop.vtime * 1024)),
+            "max_running": o.max_running, "max_busy": o.max_busy,
+            "tie_groups": loop.tie_groups, "iterations": loop.iterations,
+        }
+
+    log = log_of(obs)
+    log["peer"] = log_of(observers[1]) if len(observers) > 1 else None
+    return log
